@@ -33,6 +33,31 @@ def split_names(prog, fn):
     return None
 
 
+def _asymmetry_witness(ctx, fam, method):
+    from ..ivkind import IV, evaluate
+    from .ivcases import EXACT_THETAS, Q
+    cls = ctx.prog.cls(Q[fam])
+    cuts = [0.07, 0.21, 0.38, 0.55, 0.72, 0.9]
+    cells = [IV(c, c + 1e-4) for c in cuts]
+    cache = ctx.memo.setdefault('ivcases', {}).setdefault('dom', {})
+    dom = (IV(1e-4, 1 - 1e-4), IV(1e-4, 1 - 1e-4))
+
+    def single(th, u, v):
+        alts = evaluate(ctx, cls, method, th, u, v, alts=True, domain=dom, domcache=cache)
+        good = [x for x, d_, _ in alts if d_ and isinstance(x, IV) and not x.nan]
+        return good[0] if len(alts) == len(good) == 1 else None
+    for th in EXACT_THETAS[fam]:
+        for i, u in enumerate(cells):
+            for v in cells[i + 1:]:
+                x1, x2 = single(th, u, v), single(th, v, u)
+                if x1 is None or x2 is None:
+                    continue
+                tol = 1e-9 + 1e-9 * max(abs(x1.lo), abs(x1.hi), abs(x2.lo), abs(x2.hi))
+                if x1.lo > x2.hi + tol or x1.hi < x2.lo - tol:
+                    return th, u, v, x1, x2
+    return None
+
+
 def symmetry(ctx, rep, rule, method):
     prog = ctx.prog
     n = 0
@@ -49,12 +74,19 @@ def symmetry(ctx, rep, rule, method):
         u, v = names
         a = function_nf(prog, fn, rename={u: 'U', v: 'V'}, batch_names=('U', 'V'), skip_calls=('check_fit',))
         b = function_nf(prog, fn, rename={u: 'V', v: 'U'}, batch_names=('U', 'V'), skip_calls=('check_fit',))
-        if 'opaque' in repr(a):
-            rep.undecided(rule, fn, fn.node.name, 'the body contains a construct the normal form does not model', construct=f'{fam}.{method}')
+        if 'opaque' not in repr(a) and a == b:
+            rep.ok(rule, fn, fn.node.name, f'AC normal form of {fam}.{method} is invariant under U <-> V', construct=f'{fam}.{method}')
+            continue
+        # different normal forms only mean "not shown equal": look for positive evidence, a box on which the value at (u, v) and
+        # the value at (v, u) cannot coincide (exact theta, narrow cells)
+        wit = _asymmetry_witness(ctx, fam, method)
+        if wit is not None:
+            th, u_, v_, x1, x2 = wit
+            rep.bad(rule, fn, fn.node.name, f'{fam}.{method}(u, v) is not symmetric in (u, v): for theta = {th.lo:g}, u in {u_}, v in {v_} the value lies in {x1} '
+                    f'but with the arguments exchanged in {x2}', construct=f'{fam}.{method}')
         else:
-            rep.check(rule, fn, fn.node.name, a == b, f'AC normal form of {fam}.{method} is invariant under U <-> V',
-                      f'{fam}.{method}(u, v) is not syntactically symmetric in (u, v): the two arguments are treated differently',
-                      construct=f'{fam}.{method}')
+            rep.undecided(rule, fn, fn.node.name, f'{fam}.{method}: the normal form is not invariant under U <-> V (helper calls or different spellings) and no box '
+                          'separates the value at (u, v) from the value at (v, u)', construct=f'{fam}.{method}')
     rep.floor(rule, 'family methods normalised', n, 3)
 
 
